@@ -160,7 +160,8 @@ func (n *minNode) Next() (bool, error) {
 						case float64:
 							res = res.SetFloat64(v)
 						default:
-							return nil
+							// the item has no value for the field, it does not take part
+							return value
 						}
 						if value == nil || res.Cmp(value) < 0 {
 							return res
